@@ -130,6 +130,7 @@ def hexv(F, v):
 
 # ---- replay driver ----------------------------------------------------------------------------------------------------
 EVALS = [0]
+THOROUGH = [False]          # set by check.py for --tier thorough: larger structured input sets in the stand-ins
 
 
 def run_bin(binp, label, kv):
@@ -182,6 +183,8 @@ def curve_probes(F, label, rnd):
     # scalar multiplication: structured scalars (boundary of the group order, single bits, word / chunk boundaries)
     ks = [0, 1, 2, 3, R - 1, R, R + 1, R + 2, 2 * R + 4, 2 * R + 5, (1 << 255) - 1, 1 << 255, (1 << 256) - 1, (1 << 64) - 1, 1 << 64, (1 << 128) - 1, (1 << 32), (1 << 31) + (1 << 63),
           0x1234ffffffffffffffffffff5, ((1 << 64) - 1) << 100 | 1]
+    if THOROUGH[0]:
+        ks += [1 << b for b in (31, 33, 63, 65, 95, 127, 129, 191, 193, 223, 254)] + [(1 << b) - 1 for b in (33, 65, 97, 129, 193, 225)] + [rnd.randrange(1 << 256) for _ in range(6)]
     for k in ks:
         for op in ('mul_assign', 'affine_mul', 'precomp_256'):
             kv = dict(op=op, k=hex(k)); kv.update(pt_args(F, 'p', jac(F, P, lam if op == 'mul_assign' else None)))
@@ -607,13 +610,15 @@ def refute_msm(binp):
                   ([P, P, P], [1, 1, 1]), ([P, Qp, S], [ks[3], ks[4], ks[12]]), ([P, Qp, None, S], [ks[5], ks[6], ks[10], ks[7]]), ([P, Qp, S], [ks[10], ks[11]]), ([P, Qp], [ks[8], ks[9], ks[10]]),
                   ([P, Qp, S, P, Qp, S, ec_neg(F, S)], [ks[13], 3, ks[11], ks[1], ks[2], 7, 7]), ([P] * 9, [ks[i] for i in (1, 2, 3, 4, 5, 6, 7, 10, 11)])]
         ops = ['default', 'precomp'] + [str(w) for w in ((1, 2, 3, 4, 5, 7, 8, 11, 13, 16, 17, 20) if F is F1 else (1, 3, 8, 16, 17))]
+        if THOROUGH[0]:
+            ops = ['default', 'precomp'] + [str(w) for w in range(1, 21)]
         for si, (pts, sc) in enumerate(shapes):
             n = min(len(pts), len(sc))
             exp = None
             for i in range(n):
                 exp = ec_add(F, exp, ec_mul(F, sc[i], pts[i]))
             for op in ops:
-                if op in ('17', '20') and si not in (4, 8, 12):          # the large windows are slow: three shapes
+                if op.isdigit() and int(op) >= 17 and si not in (4, 8, 12):          # the large windows are slow: three shapes
                     continue
                 kv = dict(op=op, np=str(len(pts)), nk=str(len(sc)))
                 for i, A in enumerate(pts):
@@ -718,8 +723,9 @@ STANDINS = {
 }
 
 
-def run_standins(names):
+def run_standins(names, thorough=False):
     """[(name, description, evaluations, failure or None)] - failure is a dict like run()'s"""
+    THOROUGH[0] = bool(thorough)
     binp, err = rp.build_replay()
     res = []
     for nme in names:
